@@ -148,6 +148,7 @@ type Op struct {
 	Tick    int    `json:"t"`
 	Fault   int    `json:"f,omitempty"`  // sqlite: fail the Fault-th statement (1-based)
 	BadConn bool   `json:"bc,omitempty"` // ... with driver.ErrBadConn
+	Flav    int    `json:"fl,omitempty"` // fault flavour (FlavCancel, FlavBusy, FlavConflictDelete, ...)
 	Crash   bool   `json:"cr,omitempty"` // sqlite: snapshot the files before every statement
 	Dels    []Item `json:"d,omitempty"`
 	Wrs     []Item `json:"w,omitempty"`
@@ -500,8 +501,18 @@ func Observe(b *Backend, r *rec.Rand, full bool, probs *[]Problem) (tuples []Tup
 
 // ---- executing one write -----------------------------------------------------------------
 
-func doWrite(b *Backend, op *Op) error {
-	ctx := context.Background()
+// conflictDS is a datastore whose Write behaves like a transaction that lost a race and was
+// rolled back: it returns the conflict error and applies nothing.
+type conflictDS struct {
+	storage.OpenFGADatastore
+	err error
+}
+
+func (c conflictDS) Write(ctx context.Context, store string, d storage.Deletes, w storage.Writes, opts ...storage.TupleWriteOption) error {
+	return c.err
+}
+
+func doWrite(ctx context.Context, b *Backend, op *Op) error {
 	dels := make([]*openfgav1.TupleKeyWithoutCondition, len(op.Dels))
 	for i, d := range op.Dels {
 		dels[i] = &openfgav1.TupleKeyWithoutCondition{Object: d.Obj, Relation: d.Rel, User: d.User}
@@ -519,7 +530,14 @@ func doWrite(b *Backend, op *Op) error {
 			req.Deletes = &openfgav1.WriteRequestDeletes{TupleKeys: dels, OnMissing: optStr[op.OnMiss]}
 		}
 		// the context byte limit is configured low (default 32KB) so that a 600-byte context exceeds it
-		_, err := commands.NewWriteCommand(b.DS, commands.WithConditionContextByteLimit(512)).Execute(ctx, req)
+		var ds storage.OpenFGADatastore = b.DS
+		switch op.Flav {
+		case FlavConflictDelete:
+			ds = conflictDS{OpenFGADatastore: b.DS, err: storage.ErrWriteConflictOnDelete}
+		case FlavConflictInsert:
+			ds = conflictDS{OpenFGADatastore: b.DS, err: storage.ErrWriteConflictOnInsert}
+		}
+		_, err := commands.NewWriteCommand(ds, commands.WithConditionContextByteLimit(512)).Execute(ctx, req)
 		return err
 	}
 	var opts []storage.TupleWriteOption
@@ -543,6 +561,13 @@ func classify(op *Op, err error) int {
 		strings.Contains(err.Error(), "driver: bad connection")) {
 		return EInjected
 	}
+	if err != nil && op.Mode == 1 && (op.Flav == FlavCancel || op.Flav == FlavBusy) {
+		// the cancelled context / the commit that never happened, however it is wrapped
+		if errors.Is(err, context.Canceled) || errors.Is(err, sql.ErrTxDone) || strings.Contains(err.Error(), "context canceled") ||
+			strings.Contains(err.Error(), "SQLITE_BUSY") || strings.Contains(err.Error(), "database is locked") {
+			return EInjected
+		}
+	}
 	if op.Mode == 0 {
 		return classifyCmd(err)
 	}
@@ -558,10 +583,10 @@ type state struct {
 func ExecWrite(b *Backend, op *Op, r *rec.Rand, full bool, probs *[]Problem) Obs {
 	o := Obs{Present: true}
 	if b.Ctl == nil {
-		if op.Fault > 0 || op.Crash {
+		if (op.Fault > 0 && op.Flav < FlavConflictDelete) || op.Crash {
 			return Obs{}
 		}
-		err := doWrite(b, op)
+		err := doWrite(context.Background(), b, op)
 		o.Err = classify(op, err)
 		if o.Err == EOther {
 			o.Msg = err.Error()
@@ -585,8 +610,14 @@ func ExecWrite(b *Backend, op *Op, r *rec.Rand, full bool, probs *[]Problem) Obs
 			snaps = append(snaps, p)
 		}
 	}
-	b.Ctl.Arm(op.Fault, op.BadConn, snap)
-	err := doWrite(b, op)
+	ctx, cancel := context.WithCancel(context.Background())
+	if op.Flav >= FlavConflictDelete {
+		b.Ctl.ArmFlavour(0, false, FlavPlain, nil, snap)
+	} else {
+		b.Ctl.ArmFlavour(op.Fault, op.BadConn, op.Flav, cancel, snap)
+	}
+	err := doWrite(ctx, b, op)
+	cancel()
 	o.Trace = b.Ctl.Disarm()
 	o.NStmts = len(o.Trace)
 	o.Err = classify(op, err)
@@ -880,5 +911,5 @@ func OpV(op *Op, mem, sq Obs) rec.V {
 		ws[i] = itemWrV(w)
 	}
 	return rec.L(rec.I(0), rec.I(op.Mode), rec.I(op.OnDup), rec.I(op.OnMiss), rec.I(op.Tick), rec.I(op.Fault),
-		rec.L(ds...), rec.L(ws...), ObsV(mem), ObsV(sq))
+		rec.L(ds...), rec.L(ws...), ObsV(mem), ObsV(sq), rec.I(op.Flav))
 }
